@@ -8,6 +8,7 @@ mod probe;
 mod props_comp;
 mod props_crash;
 mod props_flat;
+mod props_plan;
 mod props_seq;
 mod report;
 mod sqldrv;
@@ -16,6 +17,7 @@ mod sqlmodel;
 fn lookup(engine: &str) -> Option<par::WorkerFn> {
     match engine {
         "seq" => Some(engines::seq::worker),
+        "plan" => Some(engines::plan::worker),
         "crash" => Some(engines::crash::worker),
         "wire" => Some(engines::wire::worker),
         "wal" => Some(engines::wal::worker),
@@ -35,6 +37,7 @@ fn check(prop: &str, tier: &str) -> i32 {
         "C02" => props_crash::c02(tier),
         "C08" => props_crash::c08(tier),
         "C03" => props_seq::c03(tier),
+        "C06" => props_plan::c06(tier),
         "C20" => props_flat::c20(tier),
         "C18" => props_flat::c18(tier),
         "C05" => props_flat::c05(tier),
